@@ -45,3 +45,14 @@ package proto
 //@   assigns nothing
 //@ func (*RetentionPolicyInfo).GetIndexColdDuration
 //@   assigns nothing
+
+//@ prop C14 C15
+//@ func (*FieldSchema).GetFieldName
+//@   ensures result == ((m != nil && m.FieldName != nil) ? deref(m.FieldName) : "")
+//@   assigns nothing
+//@ func (*FieldSchema).GetFieldType
+//@   ensures result == ((m != nil && m.FieldType != nil) ? deref(m.FieldType) : 0)
+//@   assigns nothing
+//@ func (*FieldSchema).GetEndTime
+//@   ensures result == ((m != nil && m.EndTime != nil) ? deref(m.EndTime) : 0)
+//@   assigns nothing
